@@ -471,3 +471,11 @@ func fieldBelongsTo(v *types.Var, typ string) bool {
 
 // exprString is types.ExprString (for diagnostics and lock-base identity).
 func exprString(e ast.Expr) string { return types.ExprString(e) }
+
+func constantInt64(c *types.Const) (int64, bool) {
+	v := constant.ToInt(c.Val())
+	if v.Kind() != constant.Int {
+		return 0, false
+	}
+	return constant.Int64Val(v)
+}
